@@ -685,6 +685,7 @@ def run_und(case, out):
     out.sample = {"cls": case["cls"], "ops": [s["op"] for s in case["steps"]][:12]}
 
 
+THOROUGH_SCALE = 7  # thorough-tier example counts are n["thorough"] x this (one thorough run then takes roughly 5-10 minutes on 16 cores)
 SUBCHECKS = [
     Sub("bn_history", run_bn, strategy=lambda tier: bn_history(30 if tier == "quick" else 80), n={"quick": 400, "thorough": 4000},
         shards={"quick": 12, "thorough": 16}, fuzz={"thorough": (2, 300)}, doc="BayesianNetwork edit histories against a plain-Python model with a pool of live copies"),
